@@ -100,6 +100,7 @@ fn drd_route_vol() {
     assert!(v.zdr_bias_estimate_weighted_mean == be16(&bytes, 36 + 44));
     assert!(v.spare[5] == bytes[36 + 51]);
     assert!(c.pos == 36 + 52); // C03: the reader ends right after the block
+    core::mem::forget(m);
 }
 
 #[kani::proof]
@@ -116,6 +117,7 @@ fn drd_route_elv() {
     assert!(v.atmos == i16::from_be_bytes([bytes[42], bytes[43]]));
     assert!(v.calibration_constant.to_bits() == u32::from_be_bytes([bytes[44], bytes[45], bytes[46], bytes[47]]));
     assert!(c.pos == 36 + 12);
+    core::mem::forget(m);
 }
 
 #[kani::proof]
@@ -134,17 +136,16 @@ fn drd_route_rad() {
     assert!(v.vertical_channel_calibration_constant.to_bits()
         == u32::from_be_bytes([bytes[60], bytes[61], bytes[62], bytes[63]]));
     assert!(c.pos == 36 + 28);
+    core::mem::forget(m);
 }
 
-/// one generic (moment) block: gates <= 2, word size 8 or 16 => up to 4 data bytes
-fn route_generic(name: &[u8; 3], which: usize) {
+/// one generic (moment) block with a concrete gate count and word size (a symbolic buffer length makes CBMC
+/// use > 20 GB); the sizing rule itself is proved for all u16 x u8 by c02_generic_block_new_len
+fn route_generic(name: &[u8; 3], which: usize, gates: u16, ws: u8) {
     let mut bytes: [u8; 36 + 28 + 4] = kani::any();
     one_block(&mut bytes, name);
-    let gates = be16(&bytes, 36 + 8);
-    let ws = bytes[36 + 19];
-    kani::assume(gates <= 2);
-    kani::assume(ws == 8 || ws == 16);
-    kani::cover!(gates == 2 && ws == 16);
+    bytes[36 + 8..36 + 10].copy_from_slice(&gates.to_be_bytes());
+    bytes[36 + 19] = ws;
     let mut c = SliceReader { buf: &bytes[..], pos: 0 };
     let m = decode_digital_radar_data(&mut c).unwrap();
     header_fields(&m, &bytes);
@@ -174,29 +175,30 @@ fn route_generic(name: &[u8; 3], which: usize) {
         i += 1;
     }
     assert!(c.pos == (64 + n) as u64);
+    core::mem::forget(m);
 }
 
 #[kani::proof]
 #[kani::unwind(6)]
-fn drd_route_ref() { route_generic(b"REF", 3); }
+fn drd_route_ref() { route_generic(b"REF", 3, 2, 8); }
 #[kani::proof]
 #[kani::unwind(6)]
-fn drd_route_vel() { route_generic(b"VEL", 4); }
+fn drd_route_vel() { route_generic(b"VEL", 4, 1, 16); }
 #[kani::proof]
 #[kani::unwind(6)]
-fn drd_route_sw() { route_generic(b"SW ", 5); }
+fn drd_route_sw() { route_generic(b"SW ", 5, 0, 8); }
 #[kani::proof]
 #[kani::unwind(6)]
-fn drd_route_zdr() { route_generic(b"ZDR", 6); }
+fn drd_route_zdr() { route_generic(b"ZDR", 6, 2, 16); }
 #[kani::proof]
 #[kani::unwind(6)]
-fn drd_route_phi() { route_generic(b"PHI", 7); }
+fn drd_route_phi() { route_generic(b"PHI", 7, 1, 8); }
 #[kani::proof]
 #[kani::unwind(6)]
-fn drd_route_rho() { route_generic(b"RHO", 8); }
+fn drd_route_rho() { route_generic(b"RHO", 8, 3, 8); }
 #[kani::proof]
 #[kani::unwind(6)]
-fn drd_route_cfp() { route_generic(b"CFP", 9); }
+fn drd_route_cfp() { route_generic(b"CFP", 9, 2, 8); }
 
 /// two blocks whose pointers are permuted relative to the layout and separated by a gap:
 /// layout  [hdr 32][ptr0 ptr1][RAD @40..68][gap 4][ELV @72..84] ; pointer order: ELV first, then RAD
@@ -225,6 +227,7 @@ fn drd_two_blocks_permuted_gap() {
     assert!(e.atmos == i16::from_be_bytes([bytes[78], bytes[79]]));
     // the reader ends after the last block *in pointer order* (RAD)
     assert!(c.pos == 68);
+    core::mem::forget(m);
 }
 
 /// C04 (bounded): block count 0..=2 with fully symbolic pointers into an 80-byte buffer (backwards,
